@@ -84,7 +84,10 @@ fn mix_set(k: usize, pos: usize) -> IpfixSet {
         8 => IpfixSet::Tpl(vec![mix_tpl(3)], 0),
         9 => IpfixSet::Tpl(vec![mix_tpl(4)], 0),
         // an options template under the id the plain templates use: the id changes kind
-        _ => IpfixSet::OptTpl(vec![IpfixOptTpl { id: 256, scope_count: 1, fields: vec![fs(149, 2), fs(41, 2), fs(42, 4)] }], 0),
+        10 => IpfixSet::OptTpl(vec![IpfixOptTpl { id: 256, scope_count: 1, fields: vec![fs(149, 2), fs(41, 2), fs(42, 4)] }], 0),
+        // 8 data bytes for 256: one record of that options template, one record and two bytes under template 0, less
+        // than a record under the 12-byte templates
+        _ => IpfixSet::Data(256, mix_body(50 + pos, 0)[..8].to_vec()),
     }
 }
 
@@ -208,13 +211,13 @@ pub fn streams_with(tier: &str, lists: usize) -> Vec<StreamGen> {
         };
                 v.push(stream_gen("ipfix-template-records-per-set", 3 * 2 * 3 * 2 * 4, move |i| Some(mk(i))));
     }
-    // 5. set mixes: all sequences of <= 3 (thorough 5) sets over an 11-set menu x prior context
+    // 5. set mixes: all sequences of <= 3 (thorough 5) sets over a 12-set menu x prior context
     {
         let maxlen = if thorough { 5 } else { 3 };
-        let nl = list_count(11, maxlen);
+        let nl = list_count(12, maxlen);
         let mk = move |i: u64| -> Vec<Vec<u8>> {
             let d = digits(i, &[nl, 2]);
-            let seq = list_at(11, maxlen, d[0]);
+            let seq = list_at(12, maxlen, d[0]);
             let sets: Vec<IpfixSet> = seq.iter().enumerate().map(|(pos, k)| mix_set(*k, pos)).collect();
             let mut calls = vec![];
             if d[1] == 1 {
@@ -257,6 +260,29 @@ pub fn streams_with(tier: &str, lists: usize) -> Vec<StreamGen> {
         };
         v.push(stream_gen("ipfix-wide-templates", nw * 6, move |i| Some(mk(i))));
     }
+    // 8. many records per data set: counts around every power of two up to what one message holds, four template
+    // shapes (one with a variable-length element), template delivered in the same message / same buffer / earlier call
+    {
+        let shapes: Vec<Vec<FieldSpec>> = vec![vec![fs(4, 1)], vec![fs(1, 4)], vec![fs(8, 4), fs(7, 2), fs(4, 1), fs(5, 1)], vec![fs(82, 65535), fs(4, 1)]];
+        let mut counts: Vec<usize> = vec![];
+        for k in 2..=16u32 {
+            let p = 1usize << k;
+            counts.extend([p - 1, p, p + 1]);
+        }
+        counts.extend([100, 1000, 10000]);
+        let (ns, nc) = (shapes.len() as u64, counts.len() as u64);
+        let mk = move |i: u64| -> Option<Vec<Vec<u8>>> {
+            let d = digits(i, &[ns, nc, 3]);
+            let fields = shapes[d[0] as usize].clone();
+            let n = counts[d[1] as usize];
+            let body = body_for(&fields, n, 0, None);
+            if body.len() + 4 + 16 + 8 + 4 * fields.len() + 4 > 65535 {
+                return None;
+            }
+            Some(deliver(IpfixSet::Tpl(vec![IpfixTpl { id: 256, fields }], 0), IpfixSet::Data(256, body), d[2]))
+        };
+        v.push(stream_gen("ipfix-many-records-per-set", ns * nc * 3, mk));
+    }
     v
 }
 
@@ -266,7 +292,7 @@ pub fn run(tier: &str) -> i32 {
         prop: "C05".into(),
         tier: tier.into(),
         level: "model_checking",
-        rule: "every index of each space is a conformant IPFIX stream (1..3 calls on one fresh parser) built from finite menus: every IE 0..=520(+extras, + enterprise variants) x supported width x value menu x delivery x padding; variable-length IEs x every pair of consecutive record lengths from {0,1,2,254,255,300} x short/long prefix; all lists of class representatives of length <= 4 (thorough 5); options templates; 1..=3 template records per set; all set sequences of length <= 3 (thorough 6) over an 11-set menu incl. data for an undefined id. Each call's result is compared with the RFC 7011 reference decode (flattened to (field index, name, value)); an outcome is distinct by the hash of the canonical results".into(),
+        rule: "every index of each space is a conformant IPFIX stream (1..3 calls on one fresh parser) built from finite menus: every IE 0..=520(+extras, + enterprise variants) x supported width x value menu x delivery x padding; variable-length IEs x every pair of consecutive record lengths from {0,1,2,254,255,300} x short/long prefix; all lists of class representatives of length <= 4 (thorough 5); options templates; 1..=3 template records per set; all set sequences of length <= 3 (thorough 6) over a 12-set menu incl. data for an undefined id. Each call's result is compared with the RFC 7011 reference decode (flattened to (field index, name, value)); an outcome is distinct by the hash of the canonical results".into(),
         bounds: json!({"history_depth": 3, "multi_field_list_len": if thorough {5} else {4}, "set_sequence_len": if thorough {6} else {3}, "records_per_set": "1..=3", "padding": "0..=3 and shorter than the minimal record"}),
         assumptions: vec!["IE number -> (name, value class) is the library's own table (pinned by its lookup snapshot tests)".into(), "template withdrawals are not generated".into()],
         trusted_base: vec!["refmodel::ref_ipfix_sets (RFC 7011 reference decoder) and refmodel::decode".into()],
